@@ -23,6 +23,10 @@ def cases(draw, procs=False):
             'buffer': draw(st.sampled_from([False, False, True]))}
     if procs:
         opts['mode'] = draw(st.sampled_from(['j2', 'j3', 'resume']))
+        if draw(st.integers(0, 3)) == 0:
+            # a module that cannot be imported: counted once in the Total of every mode
+            spec['modules'].append({'name': 'x9', 'fail': draw(st.sampled_from(['ImportError', 'ValueError'])),
+                                    'tree': {'t': 's', 'ch': []}})
     return {'spec': spec, 'opts': opts}
 
 
@@ -103,13 +107,15 @@ def oracle(spec, opts, run, tag=''):
     repeat = opts.get('repeat', 1)
     per_layer, fail_names, err_names, nlayer_err, setup_failures = expected_counts(spec, w, run.trace, repeat)
     p = parse.parse(run.out)
+    nimp = sum(1 for m in spec['modules'] if m.get('fail'))
     got = {}
     for b in p.blocks:
         got.setdefault(b.layer, []).extend(b.ran)
     for ln, exp in per_layer.items():
         lines = got.get(ln, [])
         for it, g in enumerate(lines):
-            if g != exp:
+            # (with import problems the per-layer error figure may include them or not: documented either way)
+            if g != exp and not (nimp and (g[0], g[1], g[3]) == (exp[0], exp[1], exp[3]) and g[2] == exp[2] + nimp):
                 viol.append(('C12/layer-summary%s' % tag, 'layer %s iteration %d: reported (tests, failures, errors, '
                              'skipped)=%s, happened %s' % (ln.replace(spec['mp'], ''), it + 1, g, exp)))
                 break
@@ -123,7 +129,7 @@ def oracle(spec, opts, run, tag=''):
     if per_layer or nlayer_err:
         n1 = sum(v[0] for v in per_layer.values())
         tot_exp = (n1, sum(v[1] for v in per_layer.values()) * repeat,
-                   sum(v[2] for v in per_layer.values()) * repeat + nlayer_err,
+                   sum(v[2] for v in per_layer.values()) * repeat + nlayer_err + nimp,
                    sum(v[3] for v in per_layer.values()) * repeat)
     if p.total is not None and tot_exp is not None:
         g = p.total
